@@ -38,17 +38,24 @@ def execcase(hxbin, root, case, strace=None, inject=None, timeout=60):
     return acks
 
 
-def dir_calls(trace_path, root):
-    """-> [(syscall, ordinal, short description)] of the calls that touch `root`, in order"""
+def dir_calls(trace_path, root, after_op=None, until_op=0):
+    """-> [(syscall, ordinal, short description)] of the calls that touch `root`, in order, between the harness's
+    acknowledgement of op `after_op` (None: from the start) and that of op `until_op`"""
     counts, out = {}, []
+    active = after_op is None
     for line in open(trace_path, errors="replace"):
         m = re.match(r"\d+\s+(\w+)\((.*)$", line)
         if not m:
             continue
         sysc, rest = m.group(1), m.group(2)
-        if sysc == "write" and '"@@OP 0' in rest:
-            break            # the open has returned; what follows is the harness's own dump
+        if sysc == "write" and ('"@@OP %d' % until_op) in rest:
+            break            # the operation has returned; what follows is the harness's own dump
         counts[sysc] = counts.get(sysc, 0) + 1
+        if sysc == "write" and after_op is not None and ('"@@OP %d' % after_op) in rest:
+            active = True
+            continue
+        if not active:
+            continue
         if root in rest and ".scratch" not in rest:
             what = re.findall(re.escape(root) + r"/?([A-Za-z0-9_.]*)", rest)
             out.append((sysc, counts[sysc], "%s %s" % (sysc, ",".join(what[:2]))))
@@ -115,6 +122,108 @@ def run_case(args):
         shutil.rmtree(d + ".scratch", ignore_errors=True)
     shutil.rmtree(base, ignore_errors=True)
     return res
+
+
+def run_apply_case(args):
+    """the last apply of the history, with EIO at each of its system calls: the call fails (or succeeds), and an
+    undisturbed reopen yields the state before the edit or the state with the whole edit - with it when the call
+    had returned success"""
+    hxbin, workroot, name, case = args
+    base = os.path.join(workroot, name)
+    shutil.rmtree(base, ignore_errors=True)
+    os.makedirs(base)
+    res = {"name": name, "case": case, "problems": [], "faults": 0, "calls": {}, "apply_failed": 0, "apply_ok": 0, "kept": 0, "lost": 0, "skipped": None}
+    parts = [p.strip() for p in case.split(";")]
+    hd, ops = parts[0], parts[1:]
+    idx = [i for i, o in enumerate(ops) if o.startswith("apply ")]
+    if not idx or ops[-1] != "close":
+        res["skipped"] = "no apply"
+        return res
+    last = idx[-1]
+    prefix, target = ops[:last], ops[last]
+    # the history up to the target, closed
+    hist = "; ".join([hd] + prefix + ([] if prefix and prefix[-1] == "close" else ["close"]))
+    root0 = os.path.join(base, "d0")
+    if execcase(hxbin, root0, hist) is None or not os.path.isdir(root0):
+        res["skipped"] = "history did not run"
+        return res
+    raws = " ".join(re.findall(r"\bi:\d+:[0-9a-fA-F-]*", case))
+    probe = "%s; open; dump; close; sweep %s" % (hd, raws)
+    step = "%s; open; %s; close; sweep %s" % (hd, target, raws)
+
+    def reopen_state(d):
+        a = execcase(hxbin, d, probe)
+        return (a.get(0) if a else "timeout"), (state_of(a.get(1)) if a else None)
+    d = os.path.join(base, "s0")
+    shutil.copytree(root0, d, symlinks=True)
+    r, s0 = reopen_state(d)
+    if r != "ok":
+        res["skipped"] = "undisturbed reopen before the edit: %s" % r
+        shutil.rmtree(base, ignore_errors=True)
+        return res
+    dry = os.path.join(base, "dry")
+    shutil.copytree(root0, dry, symlinks=True)
+    tr = os.path.join(base, "dry.trace")
+    a = execcase(hxbin, dry, step, strace=tr)
+    if a is None or a.get(0) != "ok" or not a.get(1, "").endswith("| ok"):
+        res["skipped"] = "the edit is refused or fails without a fault: %s" % (a.get(1) if a else "timeout")
+        shutil.rmtree(base, ignore_errors=True)
+        return res
+    r, s1 = reopen_state(dry)
+    calls = dir_calls(tr, dry, after_op=0, until_op=1)
+    for k, (sysc, ordinal, what) in enumerate(calls):
+        d = os.path.join(base, "k%d" % k)
+        shutil.copytree(root0, d, symlinks=True)
+        a = execcase(hxbin, d, step, inject=(sysc, ordinal))
+        res["faults"] += 1
+        key = what.split(" ")[0]
+        res["calls"][key] = res["calls"].get(key, 0) + 1
+        rp = {"fault_call_index": k, "fault": "EIO at %s (call %d of that kind in the process) inside `%s`" % (what, ordinal, target[:60])}
+        acked = False
+        if a is None or a.get(0) != "ok":
+            res["problems"].append(dict(rp, kind="error", what="the session with the faulted apply did not run: %s" % (a.get(0) if a else "timeout")))
+        else:
+            r1 = a.get(1, "NOOUT")
+            if r1 == "PANIC":
+                res["problems"].append(dict(rp, kind="error", what="Manifest::apply panicked on an I/O error"))
+            elif r1.endswith("| ok"):
+                acked = True
+                res["apply_ok"] += 1
+            else:
+                res["apply_failed"] += 1
+        r, st = reopen_state(d)
+        if r != "ok":
+            res["problems"].append(dict(rp, kind="error", what="after the faulted apply an undisturbed reopen fails: %s" % r))
+        elif st == s1:
+            res["kept"] += 1
+        elif st == s0 and not acked:
+            res["lost"] += 1
+        elif st == s0:
+            res["problems"].append(dict(rp, kind="state", what="the apply returned success but the reopened state does not hold the edit", got=st, expected=s1))
+        else:
+            res["problems"].append(dict(rp, kind="state", what="after the faulted apply the reopened state is neither the state before the edit nor the state with the whole edit", got=st, before=s0, after=s1))
+        shutil.rmtree(d, ignore_errors=True)
+        shutil.rmtree(d + ".scratch", ignore_errors=True)
+    shutil.rmtree(base, ignore_errors=True)
+    return res
+
+
+def run_apply_stage(chk, cases, hxbin, pool_map):
+    shm = "/dev/shm" if os.path.isdir("/dev/shm") else chk.work
+    workroot = os.path.join(shm, "c13-applyfault-%d" % os.getpid())
+    os.makedirs(workroot, exist_ok=True)
+    try:
+        results = pool_map(run_apply_case, [(hxbin, workroot, "af%d" % i, c) for i, c in enumerate(cases)])
+    finally:
+        shutil.rmtree(workroot, ignore_errors=True)
+    cov = {"histories": len(cases), "skipped": sum(1 for r in results if r["skipped"]), "faulted_applies": sum(r["faults"] for r in results),
+           "apply_failed": sum(r["apply_failed"] for r in results), "apply_succeeded": sum(r["apply_ok"] for r in results),
+           "reopened_with_the_edit": sum(r["kept"] for r in results), "reopened_without_the_edit": sum(r["lost"] for r in results), "calls_faulted": {}}
+    for r in results:
+        for k, v in r["calls"].items():
+            cov["calls_faulted"][k] = cov["calls_faulted"].get(k, 0) + v
+    bad = [{"stage": "apply-fault", "tag": r["name"], "case": r["case"], "problems": r["problems"][:6]} for r in results if r["problems"]]
+    return cov, bad
 
 
 def run_stage(chk, cases, hxbin, pool_map):
